@@ -139,6 +139,106 @@ def run_chain(chain, inter):
     for f in chain: cur = list(f.filter(iter(cur)))
     return cur
 
+def _case_of(d, inter, **kw):
+    return dict(d, interactions=[repr({k: (v if not callable(v) or hasattr(v, "__getstate__") else "<callable>") for k, v in it.items()})[:300] for it in inter], **kw)
+
+def check_batch(ctx, n_cases):
+    """Batch only regroups: member j of a batch carries interaction j's actions, its i-th action earns what it earned, the logged triple is that interaction's -
+    also when the interactions of a stream list their keys in different orders (keyword order of LoggedInteraction, hand-made dicts)"""
+    import coba.environments.filters as F
+    rng = ctx.rng
+    for _ in range(n_cases):
+        kind = rng.choice(["int", "str", "dense", "sparse", "float"])
+        pairs, d = gen_interaction(rng, kind, rng.choice([2, 3, 4, 5]))
+        inter = []
+        for t, (it, exp) in enumerate(pairs):
+            keys = list(it)
+            if t and rng.random() < 0.6: rng.shuffle(keys)
+            inter.append({k: it[k] for k in keys})
+        size = rng.choice([1, 2, 3, len(inter)])
+        case = _case_of(d, inter, batch_size=size, key_orders=[list(i) for i in inter])
+        ctx.count("batch", repr(case), len(inter) >= 2)
+        try: out = list(F.Batch(size).filter(iter(inter)))
+        except Exception as e:
+            ctx.fail(["batch", "raises", errname(e)], "Batch(%d) raised %s: %s" % (size, errname(e), str(e)[:100]), case); continue
+        bad = None; n = 0
+        try:
+            for b, batch in enumerate(out):
+                for j, (old, exp) in enumerate(pairs[b * size:(b + 1) * size]):
+                    n += 1
+                    if list(batch["actions"][j]) != list(old["actions"]): bad = (["batch", "actions-misplaced"], "member %d of batch %d has actions %r, interaction %d has %r" % (j, b, batch["actions"][j], b * size + j, old["actions"])); break
+                    for target in ("rewards", "feedbacks"):
+                        if target not in old: continue
+                        for i in range(len(old["actions"])):
+                            col = batch[target]
+                            got = col([A[min(i, len(A) - 1)] for A in batch["actions"]])[j] if callable(col) else col[j][i]
+                            if got != exp[target][i]: bad = ([ "batch", target + "-misaligned", d["reward_form"] if target == "rewards" else d["feedback_form"]], "after Batch(%d) action %d of interaction %d gets %s %r, it got %r" % (size, i, b * size + j, target, got, exp[target][i])); break
+                        if bad: break
+                    if bad: break
+                    for key in ("action", "reward", "probability", "context"):
+                        if key in old and batch[key][j] != old[key]: bad = (["batch", "logged-" + key], "after Batch(%d) the %s of interaction %d is %r, was %r" % (size, key, b * size + j, batch[key][j], old[key])); break
+                    if bad: break
+                if bad: break
+        except Exception as e:
+            bad = (["batch", "unreadable", errname(e)], "reading the batches raised %s: %s" % (errname(e), str(e)[:100]))
+        if not bad and n != len(pairs): bad = (["batch", "count"], "%d interactions came out of the batches, %d went in" % (n, len(pairs)))
+        if bad: ctx.fail(bad[0], bad[1], case)
+
+class _Env:
+    def __init__(self, inter, i): self._inter, self._i = inter, i
+    @property
+    def params(self): return {"i": self._i}
+    def read(self): return iter([copy.copy(i) for i in self._inter])
+
+def check_shortcuts(ctx, n_cases):
+    """the Environments shortcuts (sparse, dense, flatten, repr, batch) over SEVERAL environments read one after the other in one process: in every environment the
+    offered actions stay distinct and the i-th action earns what it earned (a 'lookup' table with room for each environment's own feature names never collides)"""
+    from coba.environments import Environments
+    from coba.primitives import Environment
+    Env = type("Env", (_Env, Environment), {})
+    rng = ctx.rng
+    for _ in range(n_cases):
+        short = rng.choice(["dense", "dense", "sparse", "flatten", "repr", "batch"])
+        kind = {"dense": "sparse", "sparse": rng.choice(["dense", "int", "str"]), "flatten": rng.choice(["nested", "dense"]), "repr": rng.choice(["cat", "densecat"]), "batch": rng.choice(["int", "str"])}[short]
+        gens = [gen_interaction(rng, kind, rng.choice([1, 2, 3])) for _ in range(rng.choice([2, 3, 4]))]
+        envs = Environments([Env([it for it, _ in pairs], k) for k, (pairs, _) in enumerate(gens)])
+        if short == "dense":
+            names = [len({k for it, _ in pairs for a in it["actions"] for k in a} | {k for it, _ in pairs if isinstance(it["context"], dict) for k in it["context"]}) for pairs, _ in gens]
+            nf = max(names + [1]); ctx_flag = rng.random() < 0.5 and all(isinstance(it["context"], dict) for pairs, _ in gens for it, _ in pairs)      # (the generator mixes context types within an environment)
+            made = envs.dense(nf, "lookup", context=ctx_flag, action=True); what = "dense(%d,'lookup',%s,True)" % (nf, ctx_flag)
+        elif short == "sparse": made = envs.sparse(context=rng.random() < 0.5, action=True); what = "sparse(.,True)"
+        elif short == "flatten": made = envs.flatten(); what = "flatten()"
+        elif short == "repr": ca = rng.choice(["onehot", "onehot_tuple", "string"]); made = envs.repr("onehot", ca); what = "repr('onehot',%r)" % ca
+        else: made = envs.batch(1); what = "batch(1)"
+        case = dict(shortcut=what, kind=kind, environments=[_case_of(d, [it for it, _ in pairs]) for pairs, d in gens])
+        ctx.count("shortcut:" + short, repr(case), True)
+        try: outs = [list(e.read()) for e in made]
+        except Exception as e:
+            ctx.fail(["shortcut", "raises", errname(e), short], "Environments.%s raised %s: %s" % (what, errname(e), str(e)[:100]), case); continue
+        bad = None
+        if len(outs) != len(gens): bad = (["shortcut", "count", short], "%d environments came out of %d" % (len(outs), len(gens)))
+        for k, ((pairs, d), out) in enumerate(zip(gens, outs)):
+            if bad: break
+            if len(out) != len(pairs): bad = (["shortcut", "count", short], "environment %d has %d interactions instead of %d" % (k, len(out), len(pairs))); break
+            for t, ((old, exp), new) in enumerate(zip(pairs, out)):
+                A2 = new["actions"][0] if short == "batch" else new["actions"]
+                try:
+                    if len(A2) != len(old["actions"]): bad = (["shortcut", "action-count", short], "environment %d interaction %d: actions %r -> %r" % (k, t, old["actions"], A2)); break
+                    if any(A2[i] == A2[j] for i in range(len(A2)) for j in range(i)) and not any(old["actions"][i] == old["actions"][j] for i in range(len(A2)) for j in range(i)):
+                        bad = (["shortcut", "actions-collapsed", short], "environment %d interaction %d of Environments.%s: distinct actions %r became %r" % (k, t, what, old["actions"], A2)); break
+                    for target in ("rewards", "feedbacks"):
+                        if target not in old: continue
+                        col = new[target]
+                        got = [(col([a])[0] if short == "batch" else col(a)) if callable(col) else (col[0][i] if short == "batch" else col[i]) for i, a in enumerate(A2)]
+                        if got != list(exp[target]): bad = (["shortcut", target + "-misaligned", short], "environment %d interaction %d of Environments.%s: %s %r, were %r" % (k, t, what, target, got, exp[target])); break
+                    if bad: break
+                    if "logged" in exp:
+                        la = new["action"][0] if short == "batch" else new["action"]
+                        if [i for i, a in enumerate(A2) if a == la] != [exp["logged"]]: bad = (["shortcut", "logged-action", short], "environment %d interaction %d of Environments.%s: the logged action %r is not member %d of %r" % (k, t, what, la, exp["logged"], A2)); break
+                except Exception as e:
+                    bad = (["shortcut", "unreadable", errname(e), short], "environment %d interaction %d of Environments.%s: %s: %s" % (k, t, what, errname(e), str(e)[:100])); break
+        if bad: ctx.fail(bad[0], bad[1], case)
+
 def run(ctx):
     import coba.environments.filters as F
     from coba.primitives import BinaryReward, DiscreteReward
@@ -207,6 +307,8 @@ def run(ctx):
     ctx.count("corpus", "sparsify-binary")
     new = list(F.Sparsify(action=True).filter(iter([{"context": None, "actions": [1, 2, 3], "rewards": BinaryReward(2)}])))[0]
     if [new["rewards"](a) for a in new["actions"]] != [0, 1, 0]: ctx.fail(["chain", "rewards-misaligned", "Sparsify", "binary"], "Sparsify(action=True) with BinaryReward: %r" % [new["rewards"](a) for a in new["actions"]], dict(what="corpus sparsify-binary"))
+    check_batch(ctx, ctx.n(300, 4000))
+    check_shortcuts(ctx, ctx.n(300, 4000))
     mouts = ctx.get_model().batch([(10, r[2]) for r in reqs])
     for (case, exp, _), mo in zip(reqs, mouts):
         m = [un_q(v) for v in mo[0]] if mo else None
